@@ -1,6 +1,110 @@
 package props
 
-import "verif/harness/internal/ev"
+import (
+	"fmt"
+	"time"
 
-// c16EndToEnd is filled in by c16_e2e (needs the world package).
-var c16EndToEnd = func(run *ev.Run) {}
+	"github.com/zitadel/saml/pkg/provider/xml/md"
+
+	"verif/harness/internal/devx"
+	"verif/harness/internal/ev"
+	"verif/harness/internal/msg"
+	"verif/harness/internal/world"
+	"verif/harness/internal/xt"
+)
+
+// c16EndToEnd: every ACS list of length <= 2 (10 100 lists) x 6 requested bindings x 2 transports is
+// registered as SP metadata and driven through the real SSO handler; the (URL, binding) pair handed to
+// CreateAuthRequest must be an acceptable choice of the reference selection function, and when every
+// acceptable choice has a supported binding the (otherwise valid) request must be accepted.
+var c16EndToEnd = func(run *ev.Run) {
+	world.PinClock()
+	type c struct {
+		Shapes    []int  `json:"shapes"`
+		Requested string `json:"requested"`
+		Transport string `json:"transport"`
+	}
+	var cases []c
+	for _, rq := range c16Requested {
+		for _, tr := range []string{"redirect", "post"} {
+			for a := 0; a < 100; a++ {
+				cases = append(cases, c{[]int{a}, rq, tr})
+				for b := 0; b < 100; b++ {
+					cases = append(cases, c{[]int{a, b}, rq, tr})
+				}
+			}
+		}
+	}
+	deadline := devx.Deadline(5 * time.Minute)
+	n, complete := parallel(len(cases), deadline, func(i int) {
+		cs := cases[i]
+		class, clause, labels, detail := c16E2EOne(cs.Shapes, cs.Requested, cs.Transport)
+		run.OutcomeN(class, 1)
+		if clause != "" {
+			run.Violate(clause, "ssoHandleFunc", labels, detail, c16Case{Shapes: cs.Shapes, Requested: cs.Requested, Transport: cs.Transport})
+		}
+	})
+	run.Evaluations.Add(n)
+	run.AddStates(n)
+	run.Set("end_to_end_executions", n)
+	if !complete {
+		run.NotExhaustive("deadline during the end-to-end part")
+	}
+	run.Sample(map[string]any{"end_to_end": cases[len(cases)/2]})
+	run.Bound += fmt.Sprintf("; end-to-end through the SSO handler: all lists of length <= 2 x 6 requested x 2 transports (%d)", len(cases))
+}
+
+// c16E2EOne drives one (list, requested binding, transport) through the real SSO handler.
+func c16E2EOne(shapes []int, requested, transport string) (class, clause string, labels []string, detail map[string]any) {
+	list := make([]md.IndexedEndpointType, len(shapes))
+	a := msg.SPA()
+	a.ACS = nil
+	for p, s := range shapes {
+		list[p] = c16Entry(s, p)
+		a.ACS = append(a.ACS, msg.ACS{Binding: list[p].Binding, Location: list[p].Location, Index: list[p].Index, IsDefault: list[p].IsDefault})
+	}
+	w, err := world.New(world.Config{})
+	if err != nil {
+		panic(err)
+	}
+	if _, err := w.Store.RegisterSP("app-a", a.XML()); err != nil {
+		panic(err)
+	}
+	doc := msg.Authn(msg.AuthnOpts{Issuer: a.EntityID, Destination: w.Cfg.SSOLocation(""), ProtocolBinding: requested}).Render(xt.Style{})
+	var rep *world.Reply
+	if transport == "redirect" {
+		rep = w.Do(msg.Redirect{XML: doc, RelayState: "rs"}.Request("", w.Cfg.SSOPath()))
+	} else {
+		rep = w.Do(msg.PostForm("", w.Cfg.SSOPath(), "SAMLRequest", doc, "rs", nil))
+	}
+	okPos, rule := c16Spec(list, requested)
+	labels = []string{"end-to-end", "transport=" + transport, "rule=" + rule}
+	if requested == "" {
+		labels = append(labels, "requested=absent")
+	}
+	create := world.FindCall(rep.Calls, "CreateAuthRequest")
+	allSupported := true
+	for _, p := range okPos {
+		if b := list[p].Binding; b != msg.BindPost && b != msg.BindRedirect {
+			allSupported = false
+		}
+	}
+	switch {
+	case rep.Panic != "":
+		return "e2e:blocked_by_panic", "", labels, nil
+	case create == nil:
+		if allSupported {
+			return "e2e:rejected", "e2e-request-refused-although-documented-choice-is-deliverable", labels,
+				map[string]any{"list": list, "requested": requested, "status": rep.Status}
+		}
+		return "e2e:rejected", "", labels, nil
+	default:
+		for _, p := range okPos {
+			if list[p].Location == create.Args[1] && list[p].Binding == create.Args[2] {
+				return "e2e:accepted-rule=" + rule, "", labels, nil
+			}
+		}
+		return "e2e:accepted-rule=" + rule, "e2e-persisted-pair-is-not-the-documented-choice", labels,
+			map[string]any{"list": list, "requested": requested, "persisted": create.Args[1:3]}
+	}
+}
